@@ -117,6 +117,7 @@ type QERSpec struct {
 }
 
 type CPSession struct {
+	CPAddr net.IP // address inside the CP F-SEID when it is not the peer's own
 	CPSEID uint64
 	UPSEID uint64
 	Peer   *Peer
@@ -277,6 +278,10 @@ func (p *Peer) EstablishMsg(sess *CPSession) *message.SessionEstablishmentReques
 	ies := []*ie.IE{
 		ie.NewNodeID(p.NodeID, "", ""),
 		ie.NewFSEID(sess.CPSEID, ip4(p.IP), nil),
+	}
+	if sess.CPAddr != nil {
+		// the CP F-SEID names another CP address than the peer's N4 address
+		ies[1] = ie.NewFSEID(sess.CPSEID, sess.CPAddr, nil)
 	}
 	for _, x := range sess.PDRs {
 		ies = append(ies, x.CreateIE())
